@@ -185,12 +185,12 @@ def run_shallow_water(ctx):
   return out
 
 
-def _make_sw(sw, coords, dens, refpot):
+def _make_sw(sw, coords, dens, refpot, orography=None):
   import inspect
   from dinosaur import scales
   units = scales.units
   specs = sw.ShallowWaterSpecs.from_si(densities=dens * units.kg / units.m ** 3)
-  orog = np.zeros(coords.horizontal.modal_shape)
+  orog = np.zeros(coords.horizontal.modal_shape) if orography is None else orography
   return sw.ShallowWaterEquations(coords=coords, physics_specs=specs, orography=orog, reference_potential=refpot)
 
 
